@@ -2,7 +2,7 @@
 
 Spaces (DESIGN §5 C01): (A) all 65,536 class/ID pairs x short lengths x fills x 4 msgmodes x 2
 bitfield views; (B) every named class/ID x every payload length 0..nominal+16 x 4 fills x its
-modes + SETPOLL x 2 views; (C) extreme lengths up to 65,535; (D) consecutive pairs of frames with identical class/ID/length/checksum but different payloads; (F) for every named class/ID (and two unknown ones): payloads that are themselves complete valid frames of the same / another class/ID, with a byte added before / after or removed, x 4 modes x 2 views; (E) one frame per routed definition x every single accessor and every ordered pair of the 8 accessors (length, payload, msg_cls, msg_id, identity, msgmode, str, repr) used before the first serialize().  Oracle on every accepted frame:
+modes + SETPOLL x 2 views; (C) extreme lengths up to 65,535; (G) CFG-VALSET / CFG-VALGET (output and poll) / CFG-VALDEL payloads holding every key of the configuration database (32 per payload, also 0 and 1 item) x version {0,1,2,255} x layers {0,1,7} x third byte {0,1,2,3,255} x fourth byte {0,1} x 2 views; (D) consecutive pairs of frames with identical class/ID/length/checksum but different payloads; (F) for every named class/ID (and two unknown ones): payloads that are themselves complete valid frames of the same / another class/ID, with a byte added before / after or removed, x 4 modes x 2 views; (E) one frame per routed definition x every single accessor and every ordered pair of the 8 accessors (length, payload, msg_cls, msg_id, identity, msgmode, str, repr) used before the first serialize().  Oracle on every accepted frame:
 serialize() == input; msg_cls / msg_id / length / payload equal the frame's fields;
 eval(repr(msg)) serializes to the same bytes.
 """
@@ -133,6 +133,27 @@ def eval_block(block, acc):
                     for mode in (0, 1, 2, 3):
                         for pbf in (1, 0):
                             it.append((cid, pl, mode, pbf))
+    elif kind == "cfgdb":
+        # configuration-database messages holding real keys (every key of the database, 32 per payload, plus
+        # 0- and 1-item payloads) under every header: version x layers x transaction/position byte x reserved
+        from pyubx2 import UBX_CONFIG_DATABASE
+        keys = list(UBX_CONFIG_DATABASE.values())
+        WIDTH = {1: 1, 2: 1, 3: 2, 4: 4, 5: 8}
+        bodies = {False: [b""], True: [b""]}
+        for j in list(range(block[1], len(keys), 32 * block[2])) + [len(keys) - 1]:
+            chunk = keys[j:j + 32]
+            for sub in (chunk, chunk[:1]):
+                bodies[True].append(b"".join(kid.to_bytes(4, "little") + bytes((0x41 + i + (kid & 0x0F)) & 0x7F for i in range(WIDTH[(kid >> 28) & 7])) for kid, _ in sub))
+                bodies[False].append(b"".join(kid.to_bytes(4, "little") for kid, _ in sub))
+        it = []
+        for cid, mode, valued in ((b"\x06\x8a", 1, True), (b"\x06\x8b", 0, True), (b"\x06\x8b", 2, False), (b"\x06\x8c", 1, False), (b"\x06\x8a", 3, True), (b"\x06\x8b", 3, False)):
+            for ver in (0, 1, 2, 255):
+                for lay in (0, 1, 7):
+                    for b2 in (0, 1, 2, 3, 255):
+                        for b3 in (0, 1):
+                            for body in bodies[valued]:
+                                for pbf in (1, 0):
+                                    it.append((cid, bytes((ver, lay, b2, b3)) + body, mode, pbf))
     elif kind == "collide":
         # pairs of different frames with the same class, ID, length and Fletcher checksum (+1,-2,+1 on three
         # consecutive payload bytes), parsed one after the other in the same process
@@ -182,6 +203,7 @@ def run_tier(tier, t0):
     blocks.append(("C",))
     blocks += [("orders", i, 16) for i in range(16)]
     blocks += [("nested", i, 8) for i in range(8)]
+    blocks += [("cfgdb", 32 * i, 8) for i in range(8)]
     blocks += [("collide", c) for c in ("0501", "0107", "0601", "9901", "0a04", "1340")]
     acc = engine.sweep(blocks, eval_block)
     engine.finish(
